@@ -205,9 +205,16 @@ func init() {
 		return nil
 	})
 	registerIntrinsic("k8s.io/client-go/util/retry.OnError", func(i *interpreter, fr *frame, fn *ssa.Function, a []value) value {
-		// at most two attempts
+		// as many attempts as the backoff has steps (wait.Backoff{Duration, Factor, Jitter, Steps, Cap}); sleeping is a no-op
+		steps := 1
+		if b, ok := a[0].(structure); ok && len(b) >= 4 && !isSym(b[3]) {
+			steps = int(asInt64(b[3]))
+		}
+		if steps < 1 {
+			steps = 1
+		}
 		var err value = iface{}
-		for attempt := 0; attempt < 2; attempt++ {
+		for attempt := 0; attempt < steps; attempt++ {
 			err = call(i, fr, i.lastPos, a[2], nil)
 			if err.(iface).t == nil {
 				return err
